@@ -39,9 +39,9 @@ PLANS["C15"] = {
                     "exhaustive only up to the stated sequence length; random beyond"],
     "required_features": ["c15.slides_observed", "c15.smallvec_inline_to_heap", "c15.steps_with_nonzero_prefix"],
     "quick": [R("deque-c15", "dbg", sweep_len=8, cases=200000)],
-    "thorough": [R("deque-c15", "dbg", sweep_len=8, cases=400000),
-                 R("deque-c15", "rel", sweep=0, sweep_len=8, cases=2000000),
-                 R("deque-c15", "miri", sweep=0, sweep_len=8, cases=64, timeout=3000)],
+    "thorough": [R("deque-c15", "dbg", sweep_len=9, cases=4000000),
+                 R("deque-c15", "rel", sweep=0, sweep_len=9, cases=40000000),
+                 R("deque-c15", "miri", sweep=0, sweep_len=9, cases=256, timeout=3000)],
 }
 
 PLANS["C16"] = {
@@ -59,8 +59,8 @@ PLANS["C16"] = {
     "required_features": ["c16.middle_removals", "c16.pops", "c16.bad_push_panics_observed", "c16.successful_finds"],
     "quick": [R("deque-c16", "dbg", sweep_len=7, universe=5, cases=200000)],
     "thorough": [R("deque-c16", "dbg", sweep_len=8, universe=5, cases=400000),
-                 R("deque-c16", "rel", sweep=0, cases=2000000),
-                 R("deque-c16", "miri", sweep=0, cases=64, timeout=3000)],
+                 R("deque-c16", "rel", sweep=0, cases=20000000),
+                 R("deque-c16", "miri", sweep=0, cases=256, timeout=3000)],
 }
 
 NOT_APPLICABLE = {}
@@ -146,7 +146,7 @@ PLANS["C09"] = {
               R("codec-stream", "rel", shards=16, streams=64, mib=16, big_mib=64)],
     "thorough": [R("codec", "dbg", mode="sweep,random", sweep_len=8, dec_sweep_len=3, prod_cases=150000, tiny_cases=3000000, drain_weight=70),
                  R("codec", "rel", mode="random", prod_cases=600000, tiny_cases=6000000, drain_weight=70, max_len=1000000),
-                 R("codec-stream", "rel", shards=16, streams=192, mib=64, big_mib=512),
+                 R("codec-stream", "rel", shards=16, streams=512, mib=128, big_mib=512),
                  R("codec-stream", "dbg", shards=16, streams=64, mib=16, big_mib=64)],
 }
 
@@ -272,7 +272,7 @@ PLANS["C17"] = {
     "required_features": ["readn.result.ok_full", "readn.result.ok_short", "readn.result.ok_empty_on_eof", "readn.result.err_nothing_delivered",
                           "readn.eintr_retried", "readn.attempt_limit_reached", "readn.target.1", "readn.target.2", "readn.target.3", "readn.target.4"],
     "quick": [R("readn", "dbg", script_len=6, wrapper_script_len=5, cases=3000000)],
-    "thorough": [R("readn", "dbg", script_len=7, wrapper_script_len=6, cases=4000000),
+    "thorough": [R("readn", "dbg", script_len=8, wrapper_script_len=6, cases=40000000),
                  R("readn", "asan", script_len=4, wrapper_script_len=3, cases=100000),
                  R("readn", "miri", sweep=0, cases=160, timeout=3000, miriflags="-Zmiri-disable-isolation -Zmiri-disable-stacked-borrows")],
 }
@@ -297,8 +297,8 @@ PLANS["C11"] = {
                           "tlv.c11.limits.accepted", "tlv.c11.limits.rejected", "tlv.c11.limits.total_exactly_i32_max",
                           "tlv.c11.limits.total_one_over", "tlv.c11.limits.single_value_one_over"],
     "quick": [R("tlv-c11", "dbg", cases=10000000, claim_cases=8000000)],
-    "thorough": [R("tlv-c11", "dbg", cases=20000000, claim_cases=10000000),
-                 R("tlv-c11", "rel", cases=40000000, claim_cases=20000000, count_probe=0),
+    "thorough": [R("tlv-c11", "dbg", cases=150000000, claim_cases=50000000),
+                 R("tlv-c11", "rel", cases=300000000, claim_cases=100000000, count_probe=0),
                  R("tlv-c11", "miri", cases=300, claim_cases=300, timeout=3000, miriflags="-Zmiri-disable-isolation -Zmiri-disable-stacked-borrows")],
 }
 PLANS["C12"] = {
@@ -317,8 +317,8 @@ PLANS["C12"] = {
                           "tlv.c12.input.n huge", "tlv.c12.input.last offset at payload end +-1", "tlv.c12.input.offsets decreasing",
                           "tlv.c12.input.tags decreasing", "tlv.c12.truncation_points"],
     "quick": [R("tlv-c12", "dbg", sweep_words=8, cases=30000000)],
-    "thorough": [R("tlv-c12", "dbg", sweep_words=9, cases=40000000),
-                 R("tlv-c12", "rel", sweep=0, cases=100000000),
+    "thorough": [R("tlv-c12", "dbg", sweep_words=10, cases=400000000),
+                 R("tlv-c12", "rel", sweep=0, cases=1000000000),
                  R("tlv-c12", "miri", sweep=0, cases=2000, timeout=3000)],
 }
 
@@ -339,8 +339,8 @@ PLANS["C14"] = {
     "required_features": ["vtime.accepted", "vtime.rejected_bad_voucher", "vtime.rejected_outside_window", "vtime.rejected_before_epoch",
                           "vtime.window_or_epoch_edge_cases", "vtime.base_within_70000_of_u64_max", "vtime.now_cases", "vtime.now_provider_error_propagated"],
     "quick": [R("vtime", "dbg", cases=200000000, now_cases=400000)],
-    "thorough": [R("vtime", "dbg", cases=100000000, now_cases=400000),
-                 R("vtime", "rel", cases=400000000, now_cases=400000),
+    "thorough": [R("vtime", "dbg", cases=3000000000, now_cases=4000000),
+                 R("vtime", "rel", cases=8000000000, now_cases=4000000),
                  R("vtime", "miri", cases=3000, now_cases=0, timeout=3000)],
 }
 
@@ -400,8 +400,8 @@ PLANS["C18"] = {
                           "park.solo_retried_after_writes_completed", "park.try_update_true", "park.try_update_false_lock_held",
                           "park.static_writer_frozen_holding_lock", "park.frozen_before_Store", "park.frozen_after_Store", "park.frozen_before_Unlock"],
     "quick": [R("park", "dbg", repeats=16, max_freeze=24)],
-    "thorough": [R("park", "dbg", repeats=8),
-                 R("park", "rel", repeats=8),
+    "thorough": [R("park", "dbg", repeats=64, max_freeze=24),
+                 R("park", "rel", repeats=64, max_freeze=24),
                  R("park", "miri", shards=4, parallel=4, static=0, max_freeze=18, timeout=3000, san_props=["C18", "C13"])],
 }
 
@@ -426,8 +426,8 @@ PLANS["C19"] = {
                           "nfs.older_trusted_file_did_not_move_base", "nfs.get_base_time_refreshed", "nfs.get_base_time_did_not_refresh",
                           "nfs.calls_before_any_trust", "nfs.second_device_trusted", "nfs.trusted_path_swapped_to_other_device"],
     "quick": [R("nfs", "dbg", shards=4000, parallel=64, cases=4000)],
-    "thorough": [R("nfs", "dbg", shards=4000, parallel=64, cases=4000),
-                 R("nfs", "rel", shards=1000, parallel=64, cases=1000)],
+    "thorough": [R("nfs", "dbg", shards=40000, parallel=64, cases=40000),
+                 R("nfs", "rel", shards=10000, parallel=64, cases=10000)],
 }
 
 MIRI_NOSB = "-Zmiri-disable-isolation -Zmiri-disable-stacked-borrows"
